@@ -10,6 +10,10 @@ use std::sync::Mutex as StdMutex;
 /// S2: lock types used by generated parallel code and by `ceqrel_ind` under `cfg(ascent_verif)`.
 pub mod sync {
    pub use shuttle::sync::{Mutex, MutexGuard, RwLock, RwLockReadGuard, RwLockWriteGuard};
+   /// the `__changed` flag of generated parallel code: every access is a scheduling point
+   pub mod atomic {
+      pub use shuttle::sync::atomic::AtomicBool;
+   }
 }
 
 pub mod clock;
